@@ -56,7 +56,7 @@ Proof.
     + (* one inner iteration *)
       intros j [[[out' ov'] carry'] jz] (-> & Hj & -> & Hlen' & Fout' & Hcar & Hpre & Hrow) Hcj.
       rewrite ltb_of_nat in Hcj. apply Nat.ltb_lt in Hcj. split; [exact Hcj|].
-      rewrite <- Nat2Z.inj_add, ltb_of_nat.
+      rewrite ?(Z.add_comm (Z.of_nat j) (Z.of_nat k)). rewrite <- Nat2Z.inj_add, ltb_of_nat.
       rewrite (skipn_nth_cons b j) in Hrow by lia.
       destruct (Nat.ltb_spec (k + j) n) as [Hin|Hout].
       * rewrite !arr_get_nat by lia. cbn [bind].
